@@ -30,7 +30,7 @@ Definition model (i : input) : observed :=
            | Some v => victim_reg v
            | None => if names_nobody (i_pres i) then nobody_reg else i_reg i
            end)
-          (eff_pres (i_cfg i) (i_pres i)) (i_pl i) (i_grant i) (own_artefact (i_pres i)) with
+          (eff_pres (i_cfg i) (i_pres i)) (i_pl i) (i_grant i) (own_artefact (i_pres i)) (i_art i) with
   | Granted => ORes S2 ENone (issues_token (i_endpoint i)) (has_effect (i_endpoint i))
                     (match other with Some _ => WOther | None => WSelf end)
   | Refused s e => ORes s e false false WNone
@@ -56,11 +56,27 @@ Definition presents_ok_assertion (p : pres) : bool :=
 (* the request names X: a near miss of X's id names nobody *)
 Definition identifies (p : pres) : bool := match p with PNone | PNearId _ _ => false | _ => true end.
 
+(* Where X's exact secret travels (round 11).  The property text: "correct secret via Basic or - if
+   enabled - POST".  [secret_in_basic]: in the Authorization header; [secret_in_form]: as the
+   client_secret parameter (request body, or wherever the form parameters of the case travel). *)
+Definition secret_in_basic (p : pres) : bool :=
+  match p with PBasic SRight _ | PBoth SRight _ | PXBasic _ => true | _ => false end.
+Definition secret_in_form (p : pres) : bool :=
+  match p with
+  | PPost SRight | PBoth _ SRight => true
+  | PXPost _ | PXPostId _ | PXDup _ => true
+  | _ => false
+  end.
+(* the secret arrives by a transport the provider has enabled: Basic always, the form only when
+   Config.AuthMethodPost is on - whatever method the client is registered with *)
+Definition secret_as_enabled (c : cfg) (p : pres) : bool :=
+  secret_in_basic p || (f_post c && secret_in_form p).
+
 (* "authenticated in the way it is registered" (Appendix D) *)
 Definition cred_valid (c : cfg) (rg : reg) (p : pres) (public_allowed : bool) : bool :=
   r_known rg &&
   match r_meth rg with
-  | MBasic | MOther => presents_right_secret p   (* MOther: a method the library does not know, read as the default
+  | MBasic | MOther => secret_as_enabled c p     (* MOther: a method the library does not know, read as the default
                                                      client_secret_basic - never less than the client's secret *)
   | MPost => presents_right_secret p && f_post c
   | MPKJWT => presents_ok_assertion p && r_key rg && f_pkjwt c
@@ -136,7 +152,7 @@ Definition names_other (p : pres) : bool :=
 Definition other_justified (i : input) : bool :=
   match victim_of (i_pres i) with
   | Some v => justified (mkInput (i_router i) (i_endpoint i) (i_cfg i) (victim_reg v) PIdOnly
-                                  (i_grant i) (i_pl i) (i_prev i))
+                                  (i_grant i) (i_pl i) (i_prev i) (i_art i))
   | None => false
   end.
 
@@ -145,7 +161,13 @@ Definition spec (i : input) (o : observed) : bool :=
   match o with
   | OPanic | ODouble => false
   | ORes S2 e tok act w => match e with ENone => true | _ => false end
-                           && match w with WOther => other_justified i | _ => justified i end
+                           && match w with
+                              | WOther => other_justified i
+                              | WSelf => justified i
+                              (* a success document that did nothing for anybody (active:false; 200 for a token that
+                                 is not there to revoke): justified by the client the request names, X or Y *)
+                              | WNone => justified i || other_justified i
+                              end
   | ORes s e tok act w => refusal_shape (i_endpoint i) s e tok act w
   end.
 
